@@ -33,8 +33,8 @@ R = Result('one case = (route, crash state, read method + arguments); crash stat
 rng = random.Random(a.seed * 15485863 + 5)
 QUICK = a.tier != 'thorough'
 d = scratch_dir()
-HASH_KEY = 'D27-hash-before-patch'
-TORN_KEY = 'D28-torn-table-value'
+HASH_KEY = 'D40-hash-before-patch'
+TORN_KEY = 'D41-torn-table-value'
 
 
 # ------------------------------------------------------------------------------------------------ recording
@@ -201,9 +201,10 @@ def do_op(data, name, args, preload=False):
         if name == 'open':
             v = [r.n_ilines if r.is_3d else 0, r.n_xlines if r.is_3d else 0, r.n_samples, r.tracecount, list(r.blockshape),
                  float(r.rate), bytes(r.file_text_header), bytes(r.file_binary_header), r.compressed_data_diskblocks,
-                 [int(k) for k in r.stored_header_keys],
-                 sorted((int(k), ('off', int(v)) if type(v).__name__ == 'FileOffset' else ('const', int(v)))
-                        for k, v in r.segy_traceheader_template.items())]
+                 [float(x) for x in r.zslices], [int(x) for x in r.ilines] if r.is_3d else [], [int(x) for x in r.xlines] if r.is_3d else [],
+                 int(r.get_file_source_code()), int(r.get_header_detection_method_code()), str(r.get_file_version())]
+            # (the internal template -- which header words are constants, which are arrays -- is compared with the model's
+            #  open_table below; before the 'thorough' patches it names 89 arrays none of which can be read)
         elif name == 'gen_trace_header_all':
             v = r.gen_trace_header(args[0], load_all_headers=True)
         elif name == 'read_variant_headers':
@@ -225,6 +226,34 @@ def cuts_in(n, dense=()):
 
 def table_rows(b):
     return [struct.unpack('<iii', b[980 + 12 * i: 980 + 12 * i + 12]) for i in range(89)]
+
+
+GEN_ORDER = {}
+
+
+def expected_shape(conv, thorough, strip, has_footer):
+    """the order of write events the GENERATED Gen/Faults.v records for this converter, restricted to this route"""
+    if not GEN_ORDER:
+        if a.no_model:
+            GEN_ORDER['segy'] = 'WHeader; WBlocks; WPatch 64 4 OnlyThorough; WPatch 980 1068 OnlyThorough; WFooter UnlessStrip; WPatch 960 20 Always'
+            GEN_ORDER['numpy'] = 'WHeader; WBlocks; WFooter Always; WPatch 960 20 Always'
+        else:
+            v = coq_eval(['SZ.Gen.Faults'], ['segy_write_order', 'numpy_write_order'])
+            GEN_ORDER['segy'], GEN_ORDER['numpy'] = [x.strip().strip('[]') for x in v]
+    out = []
+    for ev in GEN_ORDER[conv].split(';'):
+        t = ev.replace('(', ' ').replace(')', ' ').split()
+        cond = t[-1] if t[-1] in ('Always', 'OnlyThorough', 'UnlessStrip') else 'Always'
+        on = {'Always': True, 'OnlyThorough': thorough, 'UnlessStrip': not strip}[cond]
+        if t[0] == 'WHeader':
+            out.append('H')
+        elif t[0] == 'WBlocks':
+            out.append('B')
+        elif t[0] == 'WPatch' and on:
+            out.append(f'P{t[1]}+{t[2]}')
+        elif t[0] == 'WFooter' and on and has_footer:
+            out.append('F')
+    return out
 
 
 # ------------------------------------------------------------------------------------------------ one route
@@ -251,9 +280,9 @@ def run_route(label, kind, conv):
             shape.append(f'P{o}+{len(b)}')
     comp = [k for k, g in itertools.groupby(shape)]
     thorough = 'thorough' in label
-    expect = ['H', 'B'] + (['P64+4', 'P980+1068'] if thorough else []) + (['F'] if 'F' in comp else []) + ['P960+20']
+    expect = expected_shape('numpy' if label.startswith('numpy') else 'segy', thorough, 'strip' in label, 'F' in comp)
     if comp != expect:
-        R.violation('corr', {'route': label}, f'write events {comp} differ from the generated order {expect}')
+        R.violation('corr', {'route': label}, f'write events {comp} differ from the generated order {expect} (Gen/Faults.v)')
     flushes = [i for i, (h, o, b) in enumerate(raw) if o == -1]
     n_before_flush = sum(1 for (h, o, b) in raw[:flushes[0]] if o >= 0) if flushes else -1
     if not flushes or shape[:n_before_flush] != ['H'] + ['B'] * (n_before_flush - 1) or 'B' in shape[n_before_flush:]:
@@ -392,7 +421,7 @@ def run_route(label, kind, conv):
                 R.count('model_table_cases')
                 inp = {'route': label, 'state': desc, 'call': 'open (table)', 'count': cnt}
                 v = v.strip()
-                if v.startswith('Raise'):
+                if re.match(r'\(?(Py\.)?Raise', v):
                     if res[0] != 'raise':
                         R.violation('corr', inp, f'model: {v}; implementation opened the file')
                 else:
